@@ -81,7 +81,11 @@ def fmin_steepest(f, x0, fprime=None, xtol=1e-4, ftol=1e-4,
         if disp:
             print('Computing gradient...')
         direc = myfprime(x)
-        direc = direc / np.sqrt(np.sum(direc**2))
+        norm = np.sqrt(np.sum(direc**2))
+        if not norm > 0:
+            # stationary point (zero gradient): nothing to descend along
+            break
+        direc = direc / norm
         if disp:
             print('Performing line search...')
         fval, x = _linesearch_brent(f, x, direc, tol=xtol)
